@@ -51,6 +51,28 @@ pub fn sequences(args: &[String], out: &mut Out) {
                 };
             }
             let script = b.into_script();
+            // the same sequence with the builder taken apart into bytes and put together again (Builder::from) before the last
+            // operation: the remembered last opcode must survive the trip
+            if ops.len() >= 2 {
+                let mut r2 = rng(seed, 0x1600_0000 + ci as u64);
+                let mut b2 = Builder::new();
+                for (k, o) in ops.iter().enumerate() {
+                    if k + 1 == ops.len() { b2 = Builder::from(b2.into_script().into_bytes()); }
+                    b2 = match o["k"].as_str().unwrap() {
+                        "opcode" => b2.push_opcode(opcodes::All::from(o["b"].as_u64().unwrap() as u8)),
+                        "int" => b2.push_int(o["v"].as_i64().unwrap()),
+                        "scriptint" => b2.push_scriptint(o["v"].as_i64().unwrap()),
+                        "slice" => {
+                            let n = o["n"].as_u64().unwrap() as usize;
+                            let mut d = pools::rbytes(&mut r2, n);
+                            if n > 0 { d[0] = class_byte(o["cls"].as_str().unwrap(), &mut r2); }
+                            b2.push_slice(&d)
+                        }
+                        _ => b2.push_verify(),
+                    };
+                }
+                if b2.into_script() != script { bad.push((format!("C16/builder/from-bytes-hop/{}", cls), "rebuilding the builder from its bytes before the last operation changes the result".into())); }
+            }
             // expected bytes from the specification's items; runs are filled from the data pushed, in order
             let intended = c["intended"].as_array().unwrap();
             let numbytes = c["numbytes"].as_array().unwrap();
